@@ -191,7 +191,11 @@ def render_parts(t):
         return [('fmt', t[2], 'r' if t[1][1] == 'repr' else None)]
     if t[0] == 'OP' and t[1] == 'Mod' and t[2][0] == 'CONST':
         fmt = ast.literal_eval(t[2][1])
-        args = list(t[3][1:]) if t[3][0] == 'TUPLE' else [t[3]]
+        if t[3][0] != 'TUPLE':
+            # `fmt % x` formats x as one value only if x is not a tuple at run time: not a rendering
+            # that holds for every value
+            return None
+        args = list(t[3][1:])
         out, i = [], 0
         import re as _re
         pos = 0
@@ -239,6 +243,30 @@ def render_parts(t):
     return None
 
 
+class _ReplaceNode(ast.NodeTransformer):
+    """replace the node marked `_lift_me` by another expression"""
+
+    def __init__(self, old, new):
+        self.new = new
+
+    def visit(self, node):
+        if getattr(node, '_lift_me', False):
+            return self.new
+        return self.generic_visit(node)
+
+
+class copy:
+    @staticmethod
+    def deepcopy_keep(tree, marked):
+        """deep copy of an expression in which the copy of `marked` carries the flag `_lift_me`"""
+        import copy as _copy
+        marked._lift_me = True
+        try:
+            return _copy.deepcopy(tree)
+        finally:
+            del marked._lift_me
+
+
 class Enumerator:
     def __init__(self, global_names=(), helpers=None):
         self.npaths = 0
@@ -261,7 +289,15 @@ class Enumerator:
             kind = {ast.List: 'LIST', ast.Tuple: 'TUPLE', ast.Set: 'SET'}[type(e)]
             return (kind,) + tuple(self.val(x, env) for x in e.elts)
         if isinstance(e, ast.Call):
-            t = ('CALL', self.val(e.func, env)) + tuple(self.val(a, env) for a in e.args) + tuple(
+            argv = []
+            for a in e.args:
+                av = self.val(a, env)
+                if isinstance(av, tuple) and av[:1] == ('STAR',) and isinstance(av[1], tuple) \
+                        and av[1][:1] in (('TUPLE',), ('LIST',)):
+                    argv += list(av[1][1:])           # f(*(a, b)) is f(a, b)
+                else:
+                    argv.append(av)
+            t = ('CALL', self.val(e.func, env)) + tuple(argv) + tuple(
                 ('KW', k.arg, self.val(k.value, env)) for k in e.keywords)
             if e.keywords and isinstance(e.func, ast.Name) and e.func.id in RECORD_SIGS:
                 sig = RECORD_SIGS[e.func.id]
@@ -331,6 +367,20 @@ class Enumerator:
                 env[e.target.id] = v           # the path's environment: later reads see the binding
             return v
         return ('EXPR', ast.unparse(e))
+
+    @staticmethod
+    def _walk_no_scopes(node):
+        """sub-expressions evaluated when `node` is (not the bodies of lambdas / comprehensions)"""
+        stack = [node]
+        while stack:
+            n = stack.pop(0)
+            yield n
+            if isinstance(n, (ast.Lambda, ast.GeneratorExp, ast.ListComp, ast.SetComp, ast.DictComp)):
+                continue
+            if isinstance(n, ast.BoolOp):
+                stack[0:0] = [n.values[0]]        # later operands are evaluated conditionally
+                continue
+            stack[0:0] = list(ast.iter_child_nodes(n))
 
     # ---- enumeration
     def function(self, fn, params=None):
@@ -574,6 +624,26 @@ class Enumerator:
                     st2 = ast.copy_location(type(st)(**{**{k: getattr(st, k) for k in st._fields}, 'value': val}), st)
                     outs += self.stmt(st2, q)
             return outs
+        # a conditional expression nested in the arguments of a call on the right-hand side / in a
+        # returned value is lifted: f(a, *(x if c else y)) behaves like `f(a, *x) if c else f(a, *y)`
+        if T in (ast.Assign, ast.Return, ast.Expr) and getattr(st, 'value', None) is not None \
+                and not isinstance(st.value, ast.IfExp):
+            ie = None
+            for n in self._walk_no_scopes(st.value):
+                if isinstance(n, ast.IfExp):
+                    ie = n
+                    break
+            if ie is not None:
+                t, f = self.branch(ie.test, p, st)
+                outs = []
+                for paths_, val in ((t, ie.body), (f, ie.orelse)):
+                    for q in paths_:
+                        newval = _ReplaceNode(ie, val).visit(copy.deepcopy_keep(st.value, ie))
+                        st2 = ast.copy_location(type(st)(**{**{k: getattr(st, k) for k in st._fields},
+                                                            'value': newval}), st)
+                        ast.fix_missing_locations(st2)
+                        outs += self.stmt(st2, q)
+                return outs
         if T in (ast.Assign, ast.Expr) and isinstance(st.value, ast.Call):
             res = self.inline(st.value, p)
             if res is not None:
